@@ -97,6 +97,13 @@ var aliasCtor = map[string]bool{
 	"bufio.NewReader": true, "bufio.NewReaderSize": true, "io.LimitReader": true, "io.NopCloser": true,
 }
 
+// standard-library functions whose result is always newly allocated storage
+var freshResult = map[string]bool{
+	"encoding/json.Marshal": true, "encoding/json.MarshalIndent": true, "bytes.Clone": true, "slices.Clone": true,
+	"io.ReadAll": true, "os.ReadFile": true, "fmt.Sprintf": true, "fmt.Sprint": true, "fmt.Sprintln": true,
+	"fmt.Errorf": true, "strings.Clone": true,
+}
+
 // decoder-like standard-library entry points that write through a pointer / into a buffer argument
 func decoderLike(o *types.Func) bool {
 	if o == nil || o.Pkg() == nil {
@@ -292,6 +299,9 @@ func (f *freshFn) classify1(v ssa.Value) origin {
 		}
 		callee := cc.StaticCallee()
 		obj := ssau.CalleeObj(x)
+		if obj != nil && obj.Pkg() != nil && freshResult[obj.Pkg().Path()+"."+obj.Name()] {
+			return oFresh // documented to return newly allocated storage whatever it is given
+		}
 		aliases := callee == nil || f.a.inModule(callee)
 		if obj != nil && obj.Pkg() != nil && aliasCtor[obj.Pkg().Name()+"."+obj.Name()] {
 			aliases = true
@@ -584,7 +594,7 @@ func (a *anchors) fresh1() {
 		}
 	}
 	c.R.Extra["applymessage_implementations"] = len(impls)
-	c.R.Floor("FRESH-1", 2)
+	c.R.Floor("FRESH-1", 4)
 	if len(p.Controls) > 0 {
 		v := ob.Holds
 		if ctlBad {
@@ -597,4 +607,128 @@ func (a *anchors) fresh1() {
 		}
 		c.R.Control("FRESH-1", "control:good", "generator/parameter/zz_verif_control_c13.go", v, ob.Holds, "decode into a fresh object / fresh copy of the message must stay silent")
 	}
+}
+
+// FRESH-1, read side: the message ToMessage / ParameterData hands to a reader is that reader's own:
+// every returned slice is newly allocated in the call (json.Marshal result, bytes of a local buffer,
+// append onto nil, conversions) or is the parameter's current value itself (the result of the type's
+// Value(), which FRESH-1 keeps immutable) — never storage the parameter keeps and re-uses (a scratch
+// buffer field, a re-sliced field): a later read would overwrite bytes an earlier reader still holds.
+func (a *anchors) freshRead() {
+	c := a.c
+	p := c.P
+	im, _, _ := types.LookupFieldOrMethod(a.paramIface, false, a.pkg.Pkg, "ToMessage")
+	if im == nil {
+		return
+	}
+	imSig, _ := im.Type().(*types.Signature)
+	ctlBad, ctlGood := false, true
+	n := 0
+	for _, fn := range a.libraryFuncs() {
+		if fn.Parent() != nil || fn.Name() != im.Name() || fn.Signature.Recv() == nil || len(fn.Params) == 0 {
+			continue
+		}
+		rt := fn.Signature.Recv().Type()
+		ok := a.implementsParameter(rt)
+		if !ok && imSig != nil {
+			if nn := ssau.NamedOf(rt); nn != nil && nn.TypeParams().Len() > 0 &&
+				types.Identical(types.NewSignatureType(nil, nil, nil, imSig.Params(), imSig.Results(), false),
+					types.NewSignatureType(nil, nil, nil, fn.Signature.Params(), fn.Signature.Results(), false)) {
+				ok = true
+			}
+		}
+		if !ok {
+			continue
+		}
+		recv := fn.Params[0]
+		class := map[*ssa.Parameter]origin{recv: oTainted}
+		f := &freshFn{a: a, fn: fn, class: class, memo: map[ssa.Value]origin{}, busy: map[ssa.Value]bool{}}
+		isOwnValue := func(v ssa.Value) bool {
+			call, ok := ssau.Strip(v).(*ssa.Call)
+			if !ok || call.Call.IsInvoke() || len(call.Call.Args) == 0 {
+				return false
+			}
+			o := ssau.CalleeObj(call)
+			if o == nil || o.Name() != "Value" {
+				return false
+			}
+			rn, cn := ssau.NamedOf(rt), ssau.RecvNamed(o)
+			if rn == nil || cn == nil || rn.Origin().Obj() != cn.Origin().Obj() {
+				return false
+			}
+			return f.classify(call.Call.Args[0]) == oTainted || call.Call.Args[0] == ssa.Value(recv)
+		}
+		var problems, undecided, facts []string
+		ssau.AllInstrs(fn, func(in ssa.Instruction) {
+			ret, ok := in.(*ssa.Return)
+			if !ok || in.Block() == fn.Recover {
+				return
+			}
+			for _, rv := range ret.Results {
+				if !refCapable(rv.Type(), 0) {
+					continue
+				}
+				at := p.Pos(ssau.PosOf(in))
+				switch {
+				case isOwnValue(rv):
+					facts = append(facts, "returns the current value itself at "+at+" (Value(); kept immutable by FRESH-1 on the update side)")
+				default:
+					switch o := f.classify(rv); o {
+					case oFresh:
+						facts = append(facts, "returns newly allocated bytes at "+at)
+					case oTainted:
+						problems = append(problems, "the message returned at "+at+" is (part of) storage the parameter keeps: every reader gets the same backing array, and the next ToMessage / update overwrites bytes an earlier reader still holds")
+					default:
+						undecided = append(undecided, "origin of the message returned at "+at+" not classified")
+					}
+				}
+			}
+		})
+		name := p.FuncName(fn)
+		pos := p.Pos(fn.Pos())
+		if p.IsControl(fn.Pos()) {
+			if strings.Contains(name, "Bad") && len(problems) > 0 {
+				ctlBad = true
+			}
+			if strings.Contains(name, "Good") && len(problems)+len(undecided) > 0 {
+				ctlGood = false
+			}
+			continue
+		}
+		n++
+		sort.Strings(problems)
+		facts = dedupStrings(facts)
+		switch {
+		case len(problems) > 0:
+			c.R.Violate("FRESH-1", name, pos, problems[0], append(problems[1:], facts...)...)
+		case len(undecided) > 0:
+			c.R.Undecide("FRESH-1", name, pos, undecided[0])
+		default:
+			c.R.Hold("FRESH-1", name, pos, facts...)
+		}
+	}
+	c.R.Extra["tomessage_implementations"] = n
+	if len(p.Controls) > 0 {
+		v := ob.Holds
+		if ctlBad {
+			v = ob.Violation
+		}
+		c.R.Control("FRESH-1", "control:read-bad", "generator/parameter/zz_verif_control_c13.go", v, ob.Violation, "ToMessage that returns a re-used buffer must be reported")
+		v = ob.Holds
+		if !ctlGood {
+			v = ob.Violation
+		}
+		c.R.Control("FRESH-1", "control:read-good", "generator/parameter/zz_verif_control_c13.go", v, ob.Holds, "ToMessage that returns fresh bytes must stay silent")
+	}
+}
+
+func dedupStrings(xs []string) []string {
+	sort.Strings(xs)
+	var out []string
+	for i, x := range xs {
+		if i == 0 || xs[i-1] != x {
+			out = append(out, x)
+		}
+	}
+	return out
 }
